@@ -14,6 +14,7 @@
 import KaVerif.Model.Num
 import Mathlib.Tactic.Ring
 import Mathlib.Tactic.Linarith
+import Mathlib.Tactic.LinearCombination
 import Mathlib.Tactic.Positivity
 import Mathlib.Tactic.SplitIfs
 import Mathlib.Tactic.FieldSimp
@@ -463,5 +464,157 @@ theorem core {n d : Nat} (hn : 0 < n) (hd : 0 < d) :
     refine ⟨n, d * 2^(-s).toNat * 2^dp, k, Nat.mul_pos hden (two_pow_pos' _), ?_, hlo, hhi, heq⟩
     apply ident_neg
     rw [← pow_add, ← pow_add]; congr 1; omega
+
+/-! ## From the one-line form to the specification -/
+
+theorem near_down {base a t W : Int} (h0 : 0 ≤ a) (h1 : 2 * a ≤ t) (hW : W ≤ base ∨ base + t ≤ W) :
+    |base + a - base| ≤ |base + a - W| ∧ (|base + a - base| = |base + a - W| → W = base ∨ 2 * a = t) := by
+  rcases abs_cases (base + a - base) with ⟨e1, _⟩ | ⟨e1, _⟩ <;>
+  rcases abs_cases (base + a - W) with ⟨e2, _⟩ | ⟨e2, _⟩ <;>
+  rcases hW with hW | hW <;> rw [e1, e2] <;> refine ⟨by linarith, fun h => ?_⟩ <;>
+  first
+    | (left; linarith)
+    | (right; linarith)
+
+theorem near_up {base a t W : Int} (h0 : a ≤ t) (h1 : t ≤ 2 * a) (hW : W ≤ base ∨ base + t ≤ W) :
+    |base + a - (base + t)| ≤ |base + a - W| ∧
+    (|base + a - (base + t)| = |base + a - W| → W = base + t ∨ 2 * a = t) := by
+  rcases abs_cases (base + a - (base + t)) with ⟨e1, _⟩ | ⟨e1, _⟩ <;>
+  rcases abs_cases (base + a - W) with ⟨e2, _⟩ | ⟨e2, _⟩ <;>
+  rcases hW with hW | hW <;> rw [e1, e2] <;> refine ⟨by linarith, fun h => ?_⟩ <;>
+  first
+    | (left; linarith)
+    | (right; linarith)
+
+/-- (c) nearest, ties to even, on the scaled quotient: `rne num T · 2^k` is at least as near to
+    `num/T · 2^k` as any value `V` of the double grid, and when some other grid value is equally near
+    the chosen mantissa is even.  (Cross-multiplied by `T`.) -/
+theorem near_nat {num T k V : Nat} (hT : 0 < T) (hV : GridVal V) (hk : k = 0 ∨ 2^52 ≤ num / T)
+    (hm : num / T < 2^53) :
+    |((num * 2^k : Nat) : Int) - ((rne num T * 2^k * T : Nat) : Int)|
+        ≤ |((num * 2^k : Nat) : Int) - ((V * T : Nat) : Int)| ∧
+    (|((num * 2^k : Nat) : Int) - ((rne num T * 2^k * T : Nat) : Int)|
+        = |((num * 2^k : Nat) : Int) - ((V * T : Nat) : Int)| →
+      V ≠ rne num T * 2^k → rne num T % 2 = 0) := by
+  have gap := grid_gap hV hk hm
+  have hdm : T * (num / T) + num % T = num := Nat.div_add_mod num T
+  have hρ : num % T < T := Nat.mod_lt _ hT
+  have hg := two_pow_pos' k
+  have hcases := rne_cases num T
+  generalize rne num T = m at *
+  generalize num / T = m0 at *
+  generalize num % T = ρ at *
+  generalize 2^k = g at *
+  have hA : num * g = m0 * g * T + ρ * g := by rw [← hdm]; ring
+  have gapT : V * T ≤ m0 * g * T ∨ m0 * g * T + T * g ≤ V * T := by
+    rcases gap with h | h
+    · left; exact Nat.mul_le_mul_right _ h
+    · right
+      have := Nat.mul_le_mul_right T h
+      have e : (m0 + 1) * g * T = m0 * g * T + T * g := by ring
+      omega
+  have hat : ρ * g ≤ T * g := Nat.mul_le_mul_right _ (le_of_lt hρ)
+  have hgapI : ((V * T : Nat) : Int) ≤ ((m0 * g * T : Nat) : Int) ∨
+      ((m0 * g * T : Nat) : Int) + ((T * g : Nat) : Int) ≤ ((V * T : Nat) : Int) := by
+    rcases gapT with h | h
+    · left; exact_mod_cast h
+    · right; exact_mod_cast h
+  have cancel : ∀ x y : Nat, x * T = y * T → x = y := fun x y h => Nat.eq_of_mul_eq_mul_right hT h
+  rw [hA]
+  rcases hcases with ⟨hm', c1, c2⟩ | ⟨hm', c1, c2⟩
+  · rw [hm']
+    have h2 : 2 * (ρ * g) ≤ T * g := by
+      have := Nat.mul_le_mul_right g c1; rw [Nat.mul_assoc] at this; exact this
+    have := @near_down ((m0 * g * T : Nat) : Int) ((ρ * g : Nat) : Int) ((T * g : Nat) : Int)
+      ((V * T : Nat) : Int) (by positivity) (by exact_mod_cast h2) hgapI
+    rw [Nat.cast_add]
+    refine ⟨this.1, fun heq hne => ?_⟩
+    rcases this.2 heq with h | h
+    · exact absurd (cancel _ _ (by exact_mod_cast h)) hne
+    · have h' : 2 * (ρ * g) = T * g := by exact_mod_cast h
+      have : 2 * ρ = T := Nat.eq_of_mul_eq_mul_right hg (by rw [Nat.mul_assoc]; exact h')
+      exact c2 this
+  · rw [hm']
+    have h2 : T * g ≤ 2 * (ρ * g) := by
+      have := Nat.mul_le_mul_right g c1; rw [Nat.mul_assoc] at this; exact this
+    have e : (m0 + 1) * g * T = m0 * g * T + T * g := by ring
+    have := @near_up ((m0 * g * T : Nat) : Int) ((ρ * g : Nat) : Int) ((T * g : Nat) : Int)
+      ((V * T : Nat) : Int) (by exact_mod_cast hat) (by exact_mod_cast h2) hgapI
+    rw [e, Nat.cast_add, Nat.cast_add]
+    refine ⟨this.1, fun heq hne => ?_⟩
+    rcases this.2 heq with h | h
+    · have h' : V * T = (m0 + 1) * g * T := by rw [e]; exact_mod_cast h
+      exact absurd (cancel _ _ h') hne
+    · have h' : 2 * (ρ * g) = T * g := by exact_mod_cast h
+      have : 2 * ρ = T := Nat.eq_of_mul_eq_mul_right hg (by rw [Nat.mul_assoc]; exact h')
+      have := c2 this
+      omega
+
+/-- the distance to a grid value, before and after the rescaling, cross-multiplied -/
+theorem transfer {n d num T k X : Nat} (V : Nat) (hid : n * X * T = num * 2^k * d) :
+    (((n * X : Nat) : Int) - ((V * d : Nat) : Int)) * (T : Int)
+      = (((num * 2^k : Nat) : Int) - ((V * T : Nat) : Int)) * (d : Int) := by
+  have := congrArg (Nat.cast : Nat → Int) hid
+  generalize 2^k = g at *
+  push_cast at this ⊢
+  linear_combination this
+
+theorem abs_transfer {P Q : Int} {T d : Nat} (h : P * (T : Int) = Q * (d : Int)) :
+    |P| * (T : Int) = |Q| * (d : Int) := by
+  have := congrArg abs h
+  rwa [abs_mul, abs_mul, Nat.abs_cast, Nat.abs_cast] at this
+
+/-- what `posRatToBits` returns on a positive rational, against the grid of double values counted in
+    units of 2^-1074: `none` or the pattern of the rounded value -/
+theorem result_spec {n d : Nat} (hn : 0 < n) (hd : 0 < d) :
+    ∃ num T k : Nat, 0 < T ∧ n * 2^1074 * T = num * 2^k * d ∧ (k = 0 ∨ 2^52 ≤ num / T)
+      ∧ num / T < 2^53 ∧
+      ((posRatToBits n d = none ∧ 2^52 * 2^2046 ≤ rne num T * 2^k) ∨
+       (∃ b, posRatToBits n d = some b ∧ b < 2047 * 2^52 ∧ bitsToNat b = rne num T * 2^k
+          ∧ b % 2 = rne num T % 2 ∧ rne num T * 2^k < 2^52 * 2^2046)) := by
+  obtain ⟨num, T, k, hT, hid, hlo, hhi, heq⟩ := core hn hd
+  have h1 : num / T < 2^53 := (Nat.div_lt_iff_lt_mul hT).2 hhi
+  have h2 : k = 0 ∨ 2^52 ≤ num / T := by
+    rcases hlo with h | h
+    · exact Or.inl h
+    · exact Or.inr ((Nat.le_div_iff_mul_le hT).2 h)
+  refine ⟨num, T, k, hT, hid, h2, h1, ?_⟩
+  rw [heq]
+  apply renorm_spec
+  · rcases rne_cases num T with ⟨e, _⟩ | ⟨e, _⟩ <;> omega
+  · rcases h2 with h | h
+    · exact Or.inl h
+    · right; rcases rne_cases num T with ⟨e, _⟩ | ⟨e, _⟩ <;> omega
+
+/-- nearest and ties-to-even, integer form (values in units of 2^-1074, cross-multiplied by `d`) -/
+theorem nearest_int {n d b : Nat} (hn : 0 < n) (hd : 0 < d) (h : posRatToBits n d = some b) :
+    b < 2047 * 2^52 ∧ ∀ V, GridVal V →
+      |((n * 2^1074 : Nat) : Int) - ((bitsToNat b * d : Nat) : Int)|
+        ≤ |((n * 2^1074 : Nat) : Int) - ((V * d : Nat) : Int)| ∧
+      (|((n * 2^1074 : Nat) : Int) - ((bitsToNat b * d : Nat) : Int)|
+        = |((n * 2^1074 : Nat) : Int) - ((V * d : Nat) : Int)| → V ≠ bitsToNat b → b % 2 = 0) := by
+  obtain ⟨num, T, k, hT, hid, hk, hm, hres⟩ := result_spec hn hd
+  rcases hres with ⟨hnone, _⟩ | ⟨b', hsome, hfin, hval, hpar, _⟩
+  · rw [hnone] at h; exact absurd h (by simp)
+  · rw [hsome] at h
+    obtain rfl : b' = b := Option.some.inj h
+    refine ⟨hfin, fun V hV => ?_⟩
+    obtain ⟨hle, htie⟩ := near_nat (k := k) hT hV hk hm
+    have tb := abs_transfer (transfer (bitsToNat b') hid)
+    have tV := abs_transfer (transfer V hid)
+    rw [hval] at tb ⊢
+    have hTi : (0 : Int) < T := by exact_mod_cast hT
+    have hdi : (0 : Int) < d := by exact_mod_cast hd
+    constructor
+    · have := mul_le_mul_of_nonneg_right hle (le_of_lt hdi)
+      rw [← tb, ← tV] at this
+      exact le_of_mul_le_mul_right this hTi
+    · intro heq hne
+      rw [hpar]
+      apply htie _ hne
+      have : |((n * 2^1074 : Nat) : Int) - ((rne num T * 2^k * d : Nat) : Int)| * (T : Int)
+          = |((n * 2^1074 : Nat) : Int) - ((V * d : Nat) : Int)| * (T : Int) := by rw [heq]
+      rw [tb, tV] at this
+      exact mul_right_cancel₀ (ne_of_gt hdi) this
 
 end KaVerif.Rounding
